@@ -696,7 +696,9 @@ func (c *compiler) compile(tok *token) []instruction {
 		c.Begin()
 		res = append(res, c.compile(tok.Tokens[forInit])...)
 		cond := c.optimize(c.compile(tok.Tokens[forCond]))
+		c.Begin() // the body is a block of its own: a := there shadows the loop variable
 		block := c.optimize(c.compile(tok.Tokens[forBlock]))
+		c.End()
 		post := c.optimize(c.compile(tok.Tokens[forPost]))
 		if len(cond) > 0 {
 			res = append(res, instruction{Code: codeJump, A: reg((len(block) + len(post)))})
@@ -765,8 +767,9 @@ func (c *compiler) compile(tok *token) []instruction {
 		const rangeKey, rangeValue, rangeItem, rangeBlock = 0, 1, 2, 3
 		res = append(res, c.compile(tok.Tokens[rangeItem])...)
 		r := c.Locals.Index(tok.Pos.String())
-		k := c.Locals.Index(tok.Tokens[rangeKey].Text)
-		v := c.Locals.Index(tok.Tokens[rangeValue].Text)
+		// key and value are declared by the loop: they shadow outer variables of the same name
+		k := c.Shadow(tok.Tokens[rangeKey].Text)
+		v := c.Shadow(tok.Tokens[rangeValue].Text)
 		block := c.optimize(c.compile(tok.Tokens[rangeBlock]))
 		for n, ins := range block {
 			switch ins.Code {
